@@ -52,6 +52,7 @@ register("netcache_mon", flavors=("asan", "tsan"))
 register("sess_mon", flavors=("asan", "plain"))
 register("sess_hist", flavors=("asan",))
 register("fstore_mon", flavors=("asan", "plain"))
+register("fstore_conc", flavors=("asan", "tsan"))
 register("aio_mon", flavors=("tsan", "asan", "plain"))
 register("route_mon", flavors=("asan",))
 register("vsrv", flavors=("asan",))
